@@ -62,7 +62,7 @@ def generate(hint, confkw) -> Generated:
 class Encoding:
     """z3 view of one Generated under one bound (None = unbounded lengths)."""
 
-    def __init__(self, g: Generated, bound, tower=None, node=None, share=None):
+    def __init__(self, g: Generated, bound, tower=None, node=None, share=None, leading=()):
         """share: another Encoding whose universe, object term and draw are reused (so that two
         generated programs can be compared on the same x and r)."""
         self.g = g
@@ -81,6 +81,7 @@ class Encoding:
         self.node = node if node is not None else refsem.parse(g.hint, tower=tw)
         self.is_random = g.confkw.get('is_random', True)
         self.assume = []
+        self.leading = list(leading)      # positional arguments passed before x (e.g. `self`)
         self._encode()
 
     def _encode(self):
@@ -110,7 +111,8 @@ class Encoding:
             self.side['param'] = self.side['return'] = []
         else:
             def binder(fn, ctx):
-                ctx.env[fn.args.vararg.arg] = (VArgs(z3.IntVal(1), [x]), T)
+                lead = self.leading
+                ctx.env[fn.args.vararg.arg] = (VArgs(z3.IntVal(1 + len(lead)), list(lead) + [x]), T)
                 ctx.env[fn.args.kwarg.arg] = (VKwargs({'x': z3.BoolVal(False)}, {'x': U.obj('kw_x')}), T)
             res = run_function(g.wrapper, U, binder, r)
             self.results['wrapper'] = res
